@@ -4,7 +4,8 @@
 \* Model.  State x = (u, u', ..., u^(q)) in R^((q+1) d), coefficient-major: (coefficient j, dimension a) -> j d + a.
 \*   prior          x(t+h) | x(t) ~ N(A x(t), Q_s),   A = A1(q,h) (x) I_d,  Q_s = Q1(q,h) (x) diag(lam_a^2 s_a^2)
 \*                  (A1, Q1: the integrated Wiener process of IwpExact.tla; s = calibrated output scale, lam = base scale)
-\*   initial        x(t0) ~ N(m0, eps^2 I)     (m0 = exact Taylor coefficients, supplied by the harness)
+\*   initial        x(t0) ~ N(m0, diag(eps^2 on the given, deps^2 on the diffuse coefficients))   (m0 = exact Taylor
+\*                  coefficients supplied by the harness, zeros for the appended diffuse ones)
 \*   ODE            u^(k) = f(u, .., u^(k-1), t),  k in {1, 2},  polynomial:
 \*                  f_a = c0_a + c3_a t + sum_b c1_ab u_b + c2_a u_a^2 + [k = 2] (sum_b e1_ab u'_b + e2_a u_a u'_a)
 \*   information    r(x, t) = x_k - f(x_0, .., x_(k-1), t) = 0, observed with noise N(0, damp^2 I)
@@ -136,9 +137,15 @@ Step(inst, A, Qh, m, P, t1) ==
     ELSE With(MatAdd(APA, Qone), LAMBDA Pp :
            Upd(inst, mp, Pp, Lin(inst, mp, t1)) @@ [mp |-> mp, Pp |-> Pp, s2 |-> Ones(inst.d)]))
 
+\* initial variance of Taylor coefficient j (1-based): the given coefficients carry eps^2, the `diffuse` appended ones
+\* (prior_wiener_integrated(..., diffuse_derivatives, diffuse_eps): mean zero, supplied as zeros in m0) carry deps^2
+InitVar(inst, j) == IF j <= inst.q + 1 - inst.diffuse THEN RMul(inst.eps, inst.eps) ELSE RMul(inst.deps, inst.deps)
+InitCov(inst) == Diag(Vec(NN(inst), LAMBDA idx : InitVar(inst, ((idx - 1) \div inst.d) + 1)))
+InitCovBlock(inst) == Diag(Vec(inst.q + 1, LAMBDA j : InitVar(inst, j)))
+
 \* state at t0 (after the optional initial-constraint update)
 Start(inst) ==
-  With(MatScale(RMul(inst.eps, inst.eps), Eye(NN(inst))), LAMBDA P0 :
+  With(InitCov(inst), LAMBDA P0 :
     IF inst.initc THEN Upd(inst, inst.m0, P0, Lin(inst, inst.m0, inst.t0))
     ELSE [sing |-> FALSE, m |-> inst.m0, P |-> P0, tv |-> VZero(inst.d)])
 
@@ -242,7 +249,7 @@ BStep(inst, Ah, Qh, MB, PB, t1) ==
 
 BStart(inst) ==
   With2(Vec(inst.d, LAMBDA a : Vec(inst.q + 1, LAMBDA j : inst.m0[(j - 1) * inst.d + a])),
-        Vec(inst.d, LAMBDA a : MatScale(RMul(inst.eps, inst.eps), Eye(inst.q + 1))), LAMBDA MB, PB :
+        Vec(inst.d, LAMBDA a : InitCovBlock(inst)), LAMBDA MB, PB :
     IF inst.initc THEN BUpd(inst, MB, PB, Lin(inst, inst.m0, inst.t0))
     ELSE [sing |-> FALSE, MB |-> MB, PB |-> PB, tv |-> VZero(inst.d)])
 
@@ -345,7 +352,7 @@ LawSmooth(inst, rr) ==
 \* (iii) scale equivariance (exact initial value, no damping): lam -> 2 lam leaves the means alone, multiplies
 \* uncalibrated covariances by 4, divides the MLE / dynamic scale^2 by 4 (calibrated covariances unchanged)
 LawEquivariance(inst, rr) ==
-  (inst.eps = RZero /\ inst.damp = RZero) =>
+  (inst.eps = RZero /\ inst.diffuse = 0 /\ inst.damp = RZero) =>
     With(Run([inst EXCEPT !.lam = Vec(inst.d, LAMBDA a : RMul(RInt(2), inst.lam[a]))]), LAMBDA R2 :
       /\ \A k \in 1..Len(rr.means) :
            /\ VEq(rr.means[k], R2.means[k]) /\ VEq(rr.sm_means[k], R2.sm_means[k])
